@@ -1,5 +1,7 @@
 import KfacVerif.Driver.Kaisa
 import KfacVerif.Driver.Misc
+import KfacVerif.Driver.Neox
+import KfacVerif.Driver.Precond
 
 namespace KV.Driver
 
@@ -22,6 +24,8 @@ def dispatch (line : String) : String :=
     | "expdecay" => expDecayOp args
     | "trace" => traceOp args
     | "register" => registerOp args
+    | "neox" => neoxOp args
+    | "precond" => precondOp args
     | _ => "bad-op"
 
 end KV.Driver
